@@ -319,27 +319,40 @@ def all_shapes(n, decl, allow_dd=True):
     return out
 
 
-def all_shapes_by_words(k, decl, allow_dd=True):
-    """every sequence of at most k argv words (a word tokenizes to one or two items)"""
+REDUCED_FORMS = ("word", "short", "long=", "dd", "pos")
+REDUCED_NOTE = "sequences of the largest size (one word more than the quick tier) are built from the reduced form set {plain word, short name, --name=value, --}; all spellings are exercised at the smaller sizes"
+
+
+def all_shapes_by_words(k, decl, allow_dd=True, full_upto=None):
+    """every sequence of at most k argv words (a word tokenizes to one or two items).
+    `full_upto`: sequences longer than that are built from REDUCED_FORMS only (a plain word, a short
+    name, `--name=value`, `--`): the spelling variants are exercised in full at the smaller sizes"""
     out = []
 
-    def rec(prefix, left, pos_only):
+    def rec(prefix, left, pos_only, forms):
         out.append(tuple(prefix))
         if left == 0:
             return
         if pos_only:
-            rec(prefix + ["pos"], left - 1, True)
+            rec(prefix + ["pos"], left - 1, True, forms)
             return
-        for f in FORMS:
+        for f in forms:
             if f == "pos":
                 continue
             if f == "dd" and not allow_dd:
                 continue
             if f == "shortv" and not decl.short_args:
                 continue
-            rec(prefix + [f], left - 1, f == "dd")
-    rec([], k, False)
-    return out
+            rec(prefix + [f], left - 1, f == "dd", forms)
+    if full_upto is None or full_upto >= k:
+        rec([], k, False, FORMS)
+        return out
+    rec([], full_upto, False, FORMS)
+    seen = set(out)
+    full = out
+    out = []
+    rec([], k, False, REDUCED_FORMS)
+    return full + [s for s in out if len(s) > full_upto and s not in seen]
 
 
 # ------------------------------------------------------------------------------------------------
